@@ -101,6 +101,8 @@ def check(ctx):
     # answer for the day asked, statelessly (C17's obligations, reused as in C08); and the ledger must answer per calendar day
     _c17._leaf_semantics(ctx)
     _c17._none_zero(ctx)
+    from .c08 import rounded_capacity_is_not_decided
+    rounded_capacity_is_not_decided(ctx)
     from .c03 import ledger_shape
     o = ctx.ob('ledger_day_key', 'R10',
                "ledger rows are stored under midnight(day) and every query is computed from the rows with that key (an index by a "
@@ -245,12 +247,31 @@ def summary_covers_children(ctx, o, ps: PassShape):
             if reg['milestone'] is True or reg['leaf'] is True:
                 continue
             v = ps.ex.expand(val, ps.cfg.node_of(st))
+            parent_of = {id(ch_): p_ for p_ in ast.walk(v) for ch_ in ast.iter_child_nodes(p_)}
             for x in ast.walk(v):
                 parts = facts.comp_parts(x)
                 if not parts:
                     continue
                 elt, t, it, ifs = parts
                 if not (isinstance(t, ast.Name) and match(f"{t.id}.{attr}", elt)):
+                    continue
+                # one element picked by position (`next(<dates of the children>)`, `[..][0]`, `[..][-1]`) is not a roll-up over all of them
+                par = parent_of.get(id(x))
+                picked = None
+                if isinstance(par, ast.Call) and isinstance(par.func, ast.Name) and par.func.id == 'next' and par.args and par.args[0] is x:
+                    picked = 'the first'
+                elif isinstance(par, ast.Call) and isinstance(par.func, ast.Name) and par.func.id == 'iter' and par.args and par.args[0] is x and \
+                        isinstance(parent_of.get(id(par)), ast.Call) and getattr(parent_of[id(par)].func, 'id', '') == 'next':
+                    picked = 'the first'
+                elif isinstance(par, ast.Subscript) and par.value is x and facts.const_num(par.slice) is not None:
+                    picked = 'the first' if facts.const_num(par.slice) == 0 else f"the one at position {facts.const_num(par.slice):g}"
+                if picked and match(f"{ps.task}.children", _strip_seq(it)):
+                    n += 1
+                    want = 'min' if attr == 'start' else 'max'
+                    o.refute(ps.f, st, par, f"summary {attr} is the {attr} of {picked} child in `{src(it)[:40]}` that has one (`{src(par)[:70]}`), not the "
+                                            f"{want} over all children: a child that {'starts earlier' if attr == 'start' else 'ends later'} than that one "
+                                            f"(other resource, longer work, placed through a link) is not covered by the summary, so dependencies "
+                                            f"declared on the summary are not enforced for it")
                     continue
                 seq = _strip_seq(it)
                 if isinstance(seq, ast.BoolOp) and isinstance(seq.op, ast.Or):
